@@ -54,17 +54,18 @@ CLAUSES = {"setup_once_before_claims", "at_most_one_claim_per_partition", "exact
            "claim_starts_at_committed_or_initial", "cleanup_once_after_claims_returned", "final_commit_after_cleanup",
            "consume_returns_last", "requests_carry_issued_identity", "fenced_member_rejoins_fresh",
            "no_skip_across_sessions", "consume_hang", "close_hang", "consume_panic", "channels_closed_after_close",
+           "identity_kept_unless_fenced", "leave_on_close",
            "sync_plan_complete"}   # sync_plan_complete decides part of C08 (assignments as sent through SyncGroup); vlib reports under C07
 SHUTDOWN_CLAUSES = {"consume_hang", "close_hang", "consume_panic", "channels_closed_after_close"}
 ONLY = ["group_*"]
 STRATEGIES = ["range", "roundrobin", "sticky"]
 
 # non-vacuity: broken variants of the model and the clause family each one has to violate
-BUGS_QUICK = ["skip_cleanup", "claim_fail_no_cancel", "fence_keeps_id_without_budget", "final_commit_one_short"]
+BUGS_QUICK = ["fence_keeps_id_without_budget", "final_commit_one_short", "commit_keeps_stale_coordinator"]
 BUG_EXPECT = {"claim_fail_no_cancel": "ClaimFailEndsSession"}   # default: NoViolation
 BUG_BASE = {"fence_keeps_id_without_budget": "Group.mc.retry.cfg", "final_commit_one_short": "Group.mc.retry.cfg",
-            "claim_fail_no_cancel": "Group.mc.retry.cfg"}   # default: Group.bug.cfg
-BUGS_ALL = BUGS_QUICK + ["keep_member_id", "claim_at_initial", "stale_hb_identity", "skip_setup", "no_final_commit", "cleanup_early", "stale_commit_identity"]
+            "claim_fail_no_cancel": "Group.mc.retry.cfg", "commit_keeps_stale_coordinator": "Group.mc.retry.cfg"}   # default: Group.bug.cfg
+BUGS_ALL = BUGS_QUICK + ["skip_cleanup", "claim_fail_no_cancel", "keep_member_id", "claim_at_initial", "stale_hb_identity", "skip_setup", "no_final_commit", "cleanup_early", "stale_commit_identity"]
 
 
 def bug_cfg(ctx, bug):
@@ -176,14 +177,16 @@ def gen_cases(ctx, out):
     # (cfg, family, TLC workers, simulate num, per-class quota, extra)
     plan = [("Group.gen.life1.cfg", "life1", 4, 0, 2, 6), ("Group.gen.life2.cfg", "life2", 3, 0, 2, 4),
             ("Group.gen.faults.cfg", "faults", 3, 0, 2, 4), ("Group.gen.resume.cfg", "resume", 2, 0, 2, 6),
-            ("Group.gen.dfault.cfg", "dfault", 2, 0, 2, 2), ("Group.gen.empty.cfg", "empty", 3, 0, 1, 4)]
+            ("Group.gen.dfault.cfg", "dfault", 2, 0, 2, 2)]
     if thorough:
         plan = [("Group.gen.life1.cfg", "life1", 4, 0, 6, 300), ("Group.gen.life2.cfg", "life2", 3, 0, 6, 200),
                 ("Group.gen.faults.cfg", "faults", 3, 0, 6, 400), ("Group.gen.resume.cfg", "resume", 2, 0, 6, 250),
                 ("Group.gen.two.cfg", "two", 8, 0, 6, 700), ("Group.sim.big.cfg", "simbig", 1, 6000, 3, 700),
                 ("Group.gen.dfault.cfg", "dfault", 2, 0, 6, 60), ("Group.gen.empty.cfg", "empty", 3, 0, 6, 150)]
     else:
-        plan += [("Group.gen.twoq.cfg", "two", 6, 0, 2, 8), ("Group.sim.big.cfg", "simbig", 1, 150, 0, 12)]
+        # (quick leaves the simulated big configuration and the generated empty-assignment family to thorough; the fixed
+        # shutdown corpus keeps empty assignments in quick)
+        plan += [("Group.gen.twoq.cfg", "two", 6, 0, 2, 8)]
     with concurrent.futures.ThreadPoolExecutor(max_workers=8) as ex:
         futs = [ex.submit(gen_one, ctx, cfg, w, sim, ctx.seed) for cfg, _, w, sim, _, _ in plan]
         res = [f.result() for f in futs]
@@ -223,7 +226,7 @@ def gen_cases(ctx, out):
             n += 1
         # one partition of the subscribed topic is leaderless in the metadata when the leader balances (C08 on the wire:
         # it still has to be assigned; its claim then fails to start and ends the session - code behaviour, accepted)
-        for sc in leaderless_scenarios() + retry_scenarios():
+        for sc in leaderless_scenarios() + retry_scenarios() + move_scenarios():
             f.write(json.dumps(sc, separators=(",", ":")) + "\n")
             n += 1
         # partition-count change while a session runs (configuration family, not a model action)
@@ -321,6 +324,30 @@ def retry_scenarios():
                        loglen=3, oretry=orr, nonet=False)
             sc["fam"] = "retry"
             out.append(sc)
+    return out
+
+
+def move_scenarios():
+    """the group's coordinator migrates to the other broker (group state incl. committed offsets moves along) while a session runs
+    with marks pending; the session ends by the NOT_COORDINATOR heartbeat or by an application cancel right after the move"""
+    out = []
+    ok = _sess("early", 1, 1)
+    one = [("claim-slow", _sess("drain", 1, 1, ("coord_move", "claim")), {}),
+           ("claim-fast", _sess("drain", 2, 2, ("coord_move", "claim")), {"auto": "fast"}),
+           ("claim-cancel", _sess("drain", 1, 1, ("coord_move_cancel", "claim")), {}),
+           ("claim-ctxwait", _sess("ctxwait", 1, 1, ("coord_move", "claim")), {}),
+           ("setup", _sess("early", 1, 1, ("coord_move", "setup")), {}),
+           ("claim-or1", _sess("drain", 1, 1, ("coord_move", "claim")), {"oretry": 1}),
+           ("claim-or0", _sess("drain", 1, 1, ("coord_move_cancel", "claim")), {"oretry": 0}),
+           ("claim-rr1", _sess("early", 1, 0, ("coord_move", "claim")), {"rretry": 1})]
+    for name, first, kw in one:
+        sc = _scen("move-%s" % name, [_client("c1", [first, ok, ok])], np=2, loglen=3, nonet=False, **kw)
+        sc["fam"] = "move"
+        out.append(sc)
+    sc = _scen("move-two", [_client("c1", [_sess("drain", 1, 1, ("coord_move", "claim")), ok]),
+                            _client("c2", [_sess("drain", 1, 1), ok])], np=2, loglen=3, nonet=False)
+    sc["fam"] = "move"
+    out.append(sc)
     return out
 
 
@@ -595,6 +622,11 @@ def run(ctx):
                         "call must end by itself (no safety-net cancel in this family nor after Close was called)",
                         "sync_plan_complete (property C08, reported here): every accepted SyncGroup request of the group leader is compared with "
                         "the partitions the simulated cluster's metadata lists for the subscribed topic (leaderless ones included)",
+                        "identity_kept_unless_fenced / leave_on_close: an UNKNOWN_MEMBER_ID or ILLEGAL_GENERATION answer to any request since "
+                        "the last successful join (the code drops the id on both for join / sync) lifts the requirement; leave_on_close "
+                        "needs a reachable coordinator",
+                        "coordinator migration: the old broker answers NOT_COORDINATOR to every group request, the group state moves along; "
+                        "with Offsets.Retry.Max >= 1 a final-commit attempt refused by the old broker must be followed by one to the new one",
                         "hangs are reported by a quiescence-aware watchdog (vAwait): only when the process is fully blocked",
                         "Consumer.Return.Errors=false",
                         "model bounds: <=2 members, 2 partitions (3 in simulation), log of 2-3 records, <=3 Consume calls, fault/trigger budgets <=2"],
